@@ -974,6 +974,10 @@ struct Runner {
             // an object that lost its size bound or its terminator is corrupt (already recorded): start over with fresh objects
             bool broken = false;
             for (int k = 0; k < 2; ++k) { broken = broken || ob[k]->size() > N || ob[k]->data()[ob[k]->size()] != C(0); }
+            // ... and so is one holding a character that no call ever passed in (a broken operation copied foreign memory)
+            for (int k = 0; k < 2 && !broken; ++k) {
+                for (auto cc : chars_of(*ob[k])) { broken = broken || !(cc == 0 || cc == 97 || cc == 98 || cc == 200); }
+            }
             if (broken) { reset(); }
 #endif
         }
